@@ -800,6 +800,7 @@ func parseTags(text string, basePos Position) []ast.Tag {
 	var tags []ast.Tag
 	parts := strings.Split(text, ",")
 	searchStart := 0
+	bytesDone, colsDone := 0, 0
 
 	for _, part := range parts {
 		trimmed := strings.TrimSpace(part)
@@ -836,9 +837,13 @@ func parseTags(text string, basePos Position) []ast.Tag {
 			}
 		}
 
-		// columns count UTF-16 code units, tagStart and tagEnd are byte offsets
-		startCol := basePos.Column + 1 + textColumns(text[:tagStart])
-		endCol := basePos.Column + 1 + textColumns(text[:tagEnd])
+		// columns count UTF-16 code units, tagStart and tagEnd are byte offsets;
+		// count from the previous tag on (a comment may hold very many tags)
+		colsDone += textColumns(text[bytesDone:tagStart])
+		startCol := basePos.Column + 1 + colsDone
+		colsDone += textColumns(text[tagStart:tagEnd])
+		bytesDone = tagEnd
+		endCol := basePos.Column + 1 + colsDone
 
 		tags = append(tags, ast.Tag{
 			Name:  name,
